@@ -1495,3 +1495,188 @@ func E3DominantAxis(c *core.Ctx, r *core.Report) {
 	r.Count("E3.axis-choices", n)
 	r.Floor("E3.axis-choices", 1)
 }
+
+// ellipseRadiusArgs: reviewed table of the package's ellipse helpers — positions of the x- and y-radius arguments.
+var ellipseRadiusArgs = map[string][2]int{
+	"ellipseDeriv":              {0, 1},
+	"ellipseDeriv2":             {0, 1},
+	"EllipsePos":                {0, 1},
+	"ellipseNormal":             {0, 1},
+	"ellipseLength":             {0, 1},
+	"ellipseToCenter":           {2, 3},
+	"ellipseCurvatureRadius":    {0, 1},
+	"ellipseToQuadraticBeziers": {1, 2},
+	"ellipseToCubicBeziers":     {1, 2},
+	"ellipseRadiiCorrection":    {1, 2},
+	"ellipseSplit":              {0, 1},
+}
+
+// E3EllipseParamAngle: the parametric angle of a point on an ellipse divides each coordinate by its own radius.
+func E3EllipseParamAngle(c *core.Ctx, r *core.Report) {
+	r.Rule("E3.ellipse-param-angle", "A point (x, y) in the frame of an ellipse x = rx·cos t, y = ry·sin t has parameter t = atan2(y/ry, x/rx) = atan2(y·rx, x·ry). Wherever math.Atan2 is applied to two products each made of one coordinate and one radius (the radii being the expressions the function hands to the package's ellipse helpers at their rx/ry positions; a coordinate being a variable the function also uses as the X or Y of a Point), the first argument holds the Y coordinate and the second the X coordinate, a radius that multiplies is the other axis's and a radius that divides is the coordinate's own. The 'tidy' form atan2(y·ry, x·rx) is the polar angle of a squashed point: intersections are then tested against the arc's angular range with the wrong angle and hits are dropped or invented")
+	p := c.MustPkg("")
+	info := p.TypesInfo
+	n := 0
+	for _, fd := range core.AllFuncDecls(p) {
+		if fd.Body == nil || strings.HasSuffix(c.Fset.Position(fd.Pos()).Filename, "_test.go") {
+			continue
+		}
+		// radius roles from helper calls
+		role := map[string]int{} // expr string -> 0 (rx) / 1 (ry)
+		conflict := false
+		ast.Inspect(fd.Body, func(m ast.Node) bool {
+			call, ok := m.(*ast.CallExpr)
+			if !ok {
+				return true
+			}
+			f := core.CalleeOf(info, call)
+			if f == nil || f.Pkg() != p.Types {
+				return true
+			}
+			pos, ok := ellipseRadiusArgs[f.Name()]
+			if !ok || len(call.Args) <= pos[1] {
+				return true
+			}
+			a, b := types.ExprString(core.Unparen(call.Args[pos[0]])), types.ExprString(core.Unparen(call.Args[pos[1]]))
+			if a == b {
+				return true // a circle
+			}
+			for i, s := range []string{a, b} {
+				if old, seen := role[s]; seen && old != i {
+					conflict = true
+				}
+				role[s] = i
+			}
+			return true
+		})
+		if len(role) == 0 || conflict {
+			continue
+		}
+		// coordinate axes from Point literals
+		axis := map[types.Object]int{}
+		ast.Inspect(fd.Body, func(m ast.Node) bool {
+			cl, ok := m.(*ast.CompositeLit)
+			if !ok || len(cl.Elts) != 2 {
+				return true
+			}
+			if tv := info.Types[cl]; tv.Type == nil || !strings.HasSuffix(tv.Type.String(), "canvas.Point") {
+				return true
+			}
+			for i, el := range cl.Elts {
+				if kv, ok := el.(*ast.KeyValueExpr); ok {
+					el = kv.Value
+				}
+				if id, ok := core.Unparen(el).(*ast.Ident); ok {
+					if o := core.ObjOf(info, id); o != nil {
+						axis[o] = i
+					}
+				}
+			}
+			return true
+		})
+		// factorise: numerator/denominator leaves of a product
+		var factors func(e ast.Expr, inv bool, num, den *[]ast.Expr)
+		factors = func(e ast.Expr, inv bool, num, den *[]ast.Expr) {
+			e = core.Unparen(e)
+			if u, ok := e.(*ast.UnaryExpr); ok && (u.Op == token.SUB || u.Op == token.ADD) {
+				factors(u.X, inv, num, den)
+				return
+			}
+			if be, ok := e.(*ast.BinaryExpr); ok && (be.Op == token.MUL || be.Op == token.QUO) {
+				factors(be.X, inv, num, den)
+				factors(be.Y, inv != (be.Op == token.QUO), num, den)
+				return
+			}
+			if inv {
+				*den = append(*den, e)
+			} else {
+				*num = append(*num, e)
+			}
+		}
+		coordAxis := func(e ast.Expr) int {
+			switch x := core.Unparen(e).(type) {
+			case *ast.Ident:
+				if a, ok := axis[core.ObjOf(info, x)]; ok {
+					return a
+				}
+			case *ast.SelectorExpr:
+				if tv := info.Types[x.X]; tv.Type != nil && strings.HasSuffix(strings.TrimPrefix(tv.Type.String(), "*"), "canvas.Point") {
+					if _, isRadius := role[types.ExprString(x)]; !isRadius {
+						if x.Sel.Name == "X" {
+							return 0
+						} else if x.Sel.Name == "Y" {
+							return 1
+						}
+					}
+				}
+			}
+			return -1
+		}
+		fname := "canvas." + core.FuncName(fd)
+		ord := 0
+		ast.Inspect(fd.Body, func(m ast.Node) bool {
+			call, ok := m.(*ast.CallExpr)
+			if !ok || !core.IsPkgFunc(info, call, "math", "Atan2") || len(call.Args) != 2 {
+				return true
+			}
+			type part struct {
+				coord, radius, radiusInDen int
+				ok                         bool
+			}
+			var parts [2]part
+			for i, a := range call.Args {
+				var num, den []ast.Expr
+				factors(a, false, &num, &den)
+				pt := part{coord: -1, radius: -1}
+				nr, nc := 0, 0
+				for _, f := range num {
+					if ro, ok := role[types.ExprString(f)]; ok {
+						pt.radius, pt.radiusInDen = ro, 0
+						nr++
+					} else if ax := coordAxis(f); ax >= 0 {
+						pt.coord = ax
+						nc++
+					}
+				}
+				for _, f := range den {
+					if ro, ok := role[types.ExprString(f)]; ok {
+						pt.radius, pt.radiusInDen = ro, 1
+						nr++
+					}
+				}
+				pt.ok = nr == 1 && nc == 1
+				parts[i] = pt
+			}
+			if !parts[0].ok || !parts[1].ok {
+				return true
+			}
+			n++
+			ord++
+			key := fmt.Sprintf("%s|parametric angle #%d pairs each coordinate with the right radius", fname, ord)
+			bad := ""
+			for i, pt := range parts {
+				wantCoord := 1 - i // first argument: Y
+				if pt.coord != wantCoord {
+					bad = fmt.Sprintf("argument %d of Atan2 holds the %s coordinate", i+1, []string{"X", "Y"}[pt.coord])
+					break
+				}
+				wantRadius := 1 - pt.coord // multiplying: the other axis's radius
+				if pt.radiusInDen == 1 {
+					wantRadius = pt.coord
+				}
+				if pt.radius != wantRadius {
+					bad = fmt.Sprintf("in `%s` the %s coordinate is %s the %s radius", c.Src(call.Args[i]), []string{"X", "Y"}[pt.coord], []string{"multiplied by", "divided by"}[pt.radiusInDen], []string{"x", "y"}[pt.radius])
+					break
+				}
+			}
+			if bad != "" {
+				r.Fail("E3.ellipse-param-angle", key, c.Pos(call.Pos()), bad+": this is not the ellipse parameter atan2(y/ry, x/rx) of the point, so the angular-range test and the tangent direction of the intersection use a wrong angle")
+			} else {
+				r.OK("E3.ellipse-param-angle", key, c.Pos(call.Pos()), "")
+			}
+			return true
+		})
+	}
+	r.Count("E3.ellipse-param-angles", n)
+	r.Floor("E3.ellipse-param-angles", 1)
+}
